@@ -8,150 +8,177 @@ import (
 	"sort"
 	"strings"
 
-	"rscheck/cfgq"
 	"rscheck/core"
-	"rscheck/flow"
-	"rscheck/lin"
 )
 
-// ClampFlow checks a roffset/woffset-style helper by the values its results can
-// take (package flow, following pure helpers such as a local min function):
-// result 0 is one of uint64(blen) and the clamp terms, each clamp term being
-// returned only where a comparison establishes that it is the smaller value;
-// result 1 is <pos> % size. Terms are compared as linear forms (package lin),
-// so `size - offset`, `size - rpos%size`, temporaries, a min helper or a shared
-// "segment" helper are the same thing.
+// ClampSpec describes a ring-index helper: results (maxlen, offset); maxlen
+// is the minimum of uint64(<blen>) and the clamp terms, offset is <pos> % size.
+// Terms are written over the parameter roles (`_size - _offset`).
+type ClampSpec struct {
+	Params []string // expected parameter order (names are roles, not matched by name)
+	Offset string   // role whose value modulo size is the offset, e.g. "rpos"
+	Clamps []string // the terms maxlen is limited to, using _role names and _offset
+}
+
+// ClampFlow checks a roffset/woffset-style helper on its traces (path engine,
+// helpers such as a min function or a shared "clip" returning a struct are
+// followed, a range over a list of limits is unrolled): on every path result 1
+// is <pos> % size, and result 0 is one of uint64(blen) and the clamp terms AND
+// the facts of the path prove that it does not exceed any of the others (i.e.
+// it is their minimum). Values are compared as linear forms, comparisons are
+// decided with intervals and one step of transitivity, so the order of the
+// tests, `a < b` vs `b > a`, temporaries and the shape of the code are
+// irrelevant. (The name is historical: the first version used package flow.)
 func ClampFlow(c *core.Ctx, rule string, fn *core.Fn, spec ClampSpec) {
 	if fn == nil {
 		return
 	}
-	info := fn.Pkg.TypesInfo
 	name := fn.Name()
-	var params []*ast.Ident
-	for _, f := range fn.Decl.Type.Params.List {
-		params = append(params, f.Names...)
-	}
-	if len(params) != len(spec.Params) {
-		c.Undecidedf(rule, name+"/params", fn.Decl.Pos(), "%s has %d parameters, the rule knows %d roles %v", name, len(params), len(spec.Params), spec.Params)
+	res := RunSym(c, fn, &Sym{})
+	if len(res.Params) != len(spec.Params) {
+		c.Undecidedf(rule, name+"/params", fn.Decl.Pos(), "%s has %d parameters, the rule knows %d roles %v", name, len(res.Params), len(spec.Params), spec.Params)
 		return
 	}
-	role := map[string]ast.Expr{}
-	for i, r := range spec.Params {
-		role["_"+r] = params[i]
+	if ok, why := res.Usable(); !ok {
+		c.Undecidedf(rule, name+"/clamp", fn.Decl.Pos(), "%s", why)
+		c.Undecidedf(rule, name+"/offset", fn.Decl.Pos(), "%s", why)
+		return
 	}
-	role["_offset"] = &ast.BinaryExpr{X: role["_"+spec.Offset], Op: token.REM, Y: role["_size"]}
-	build := func(src string) (lin.Form, bool) {
-		x, err := parser.ParseExpr(src)
-		if err != nil {
-			return lin.Form{}, false
-		}
-		var subst func(e ast.Expr) ast.Expr
-		subst = func(e ast.Expr) ast.Expr {
-			switch v := e.(type) {
-			case *ast.Ident:
-				if r, ok := role[v.Name]; ok {
-					return r
-				}
-			case *ast.BinaryExpr:
-				return &ast.BinaryExpr{X: subst(v.X), Op: v.Op, Y: subst(v.Y)}
-			case *ast.ParenExpr:
-				return subst(v.X)
+	role := map[string]*Val{}
+	for i, r := range spec.Params {
+		role["_"+r] = res.Params[i]
+	}
+	wantOff := &Val{K: VBin, Op: token.REM, X: role["_"+spec.Offset], Y: role["_size"]}
+	role["_offset"] = wantOff
+	var build func(e ast.Expr) *Val
+	build = func(e ast.Expr) *Val {
+		switch v := e.(type) {
+		case *ast.Ident:
+			return role[v.Name]
+		case *ast.ParenExpr:
+			return build(v.X)
+		case *ast.BinaryExpr:
+			a, b := build(v.X), build(v.Y)
+			if a == nil || b == nil {
+				return nil
 			}
-			return e
+			return &Val{K: VBin, Op: v.Op, X: a, Y: b}
 		}
-		return lin.Of(info, subst(x)), true
+		return nil
 	}
 	type term struct {
-		src  string
-		form lin.Form
-		seen bool
+		src string
+		v   *Val
 	}
-	terms := []*term{{src: "uint64(blen)", form: lin.Of(info, role["_blen"])}}
+	terms := []term{{"uint64(blen)", role["_blen"]}}
 	for _, cl := range spec.Clamps {
-		f, ok := build(cl)
-		if !ok {
+		x, err := parser.ParseExpr(cl)
+		var v *Val
+		if err == nil {
+			v = build(x)
+		}
+		if v == nil {
 			c.Undecidedf(rule, name+"/spec", fn.Decl.Pos(), "bad clamp term %q", cl)
 			return
 		}
-		terms = append(terms, &term{src: strings.ReplaceAll(cl, "_", ""), form: f})
+		terms = append(terms, term{strings.ReplaceAll(cl, "_", ""), v})
 	}
-	e := flow.New(c.Program)
-	e.PureOnly = true
-	smaller := func(form lin.Form) func(cfgq.Fact) bool {
-		return func(f cfgq.Fact) bool {
-			be, ok := ast.Unparen(flow.Positive(f)).(*ast.BinaryExpr)
-			if !ok {
-				return false
-			}
-			switch be.Op {
-			case token.LSS, token.LEQ:
-				return lin.Of(info, be.X).Equal(form)
-			case token.GTR, token.GEQ:
-				return lin.Of(info, be.Y).Equal(form)
-			}
-			return false
-		}
+	onlyParams := func(v *Val) bool {
+		return !v.Mentions(func(s *Val) bool { return s.K == VLeaf && s.Leaf.Kind != LParam })
 	}
 	var bad, undec []string
-	for _, cs := range e.Returns(fn, 0) {
-		if cs.Unknown != "" {
-			undec = append(undec, cs.Unknown)
-			continue
-		}
-		if cs.Zero || cs.Expr == nil {
-			bad = append(bad, "maxlen may be returned unset")
-			continue
-		}
-		form := lin.Of(info, cs.Expr)
-		var hit *term
-		for _, t := range terms {
-			if t.form.Equal(form) {
-				hit = t
+	var badOff, undecOff []string
+	seen := make([]bool, len(terms))
+	add := func(l *[]string, s string) {
+		for _, x := range *l {
+			if x == s {
+				return
 			}
 		}
-		if hit == nil {
-			bad = append(bad, fmt.Sprintf("maxlen may be `%s`, which is none of the expected terms", e.Describe(cs)))
+		*l = append(*l, s)
+	}
+	n := 0
+	for _, t := range res.Traces {
+		if !t.Normal() {
 			continue
 		}
-		hit.seen = true
-		if hit != terms[0] && !e.AnyUnder(cs.Sites, smaller(form)) {
-			bad = append(bad, fmt.Sprintf("maxlen is set to `%s` without a comparison establishing that it is the smaller value", hit.src))
+		if len(t.Results) != 2 {
+			add(&undec, "unexpected result count")
+			continue
+		}
+		n++
+		r0, r1 := t.Results[0], t.Results[1]
+		// offset
+		if r1.Key() != wantOff.Key() {
+			if onlyParams(r1) {
+				add(&badOff, r1.Key())
+			} else {
+				add(&undecOff, r1.Key())
+			}
+		}
+		// maxlen: one of the terms ...
+		hit := -1
+		for j, tm := range terms {
+			if LinEqual(r0, tm.v) {
+				hit = j
+				break
+			}
+		}
+		if hit < 0 {
+			if onlyParams(r0) {
+				add(&bad, fmt.Sprintf("maxlen may be `%s`, which is none of the expected terms", r0))
+			} else {
+				add(&undec, fmt.Sprintf("maxlen may be `%s`", r0))
+			}
+			continue
+		}
+		seen[hit] = true
+		// ... and not larger than any other
+		pure := true
+		for _, f := range t.Facts {
+			if !onlyParams(f.A) {
+				pure = false
+			}
+		}
+		for j, tm := range terms {
+			if j == hit {
+				continue
+			}
+			le := VCmp(token.LEQ, r0, tm.v)
+			switch {
+			case t.Facts.Holds(le):
+			case t.Facts.Refuted(le):
+				add(&bad, fmt.Sprintf("maxlen is `%s` on a path where it exceeds `%s`", terms[hit].src, tm.src))
+			case pure && len(t.Taint) == 0:
+				add(&bad, fmt.Sprintf("maxlen is `%s` on a path that has not limited it to `%s`", terms[hit].src, tm.src))
+			default:
+				add(&undec, fmt.Sprintf("cannot prove `%s` <= `%s` on a path", terms[hit].src, tm.src))
+			}
 		}
 	}
-	for _, t := range terms {
-		if !t.seen && len(undec) == 0 {
-			bad = append(bad, fmt.Sprintf("maxlen is never limited to `%s`", t.src))
+	if n == 0 {
+		add(&undec, "no path returns")
+		add(&undecOff, "no path returns")
+	}
+	for j, tm := range terms {
+		if !seen[j] && len(undec) == 0 && len(bad) == 0 {
+			add(&bad, fmt.Sprintf("maxlen is never limited to `%s`", tm.src))
 		}
 	}
 	sort.Strings(bad)
+	clamps := strings.ReplaceAll(strings.Join(spec.Clamps, ", "), "_", "")
 	switch {
 	case len(bad) > 0:
-		c.Failf(rule, name+"/clamp", fn.Decl.Pos(), "maxlen must be the minimum of uint64(blen) and %s; %s: a transfer may run past the data or past the end of the ring", strings.ReplaceAll(strings.Join(spec.Clamps, ", "), "_", ""), strings.Join(bad, "; "))
+		c.Failf(rule, name+"/clamp", fn.Decl.Pos(), "maxlen must be the minimum of uint64(blen) and %s; %s: a transfer may run past the data or past the end of the ring", clamps, strings.Join(bad, "; "))
 	case len(undec) > 0:
 		c.Undecidedf(rule, name+"/clamp", fn.Decl.Pos(), "cannot resolve every value of maxlen: %s", strings.Join(undec, "; "))
 	default:
-		c.Okf(rule, name+"/clamp", fn.Decl.Pos(), "maxlen = min(blen, %s)", strings.ReplaceAll(strings.Join(spec.Clamps, ", "), "_", ""))
-	}
-	// offset
-	want := lin.Of(info, role["_offset"])
-	okOff, nOff := true, 0
-	var undecOff []string
-	got := ""
-	for _, cs := range e.Returns(fn, 1) {
-		if cs.Unknown != "" {
-			undecOff = append(undecOff, cs.Unknown)
-			continue
-		}
-		nOff++
-		if cs.Zero || cs.Expr == nil || !lin.Of(info, cs.Expr).Equal(want) {
-			okOff = false
-			got = e.Describe(cs)
-		}
+		c.Okf(rule, name+"/clamp", fn.Decl.Pos(), "maxlen = min(blen, %s)", clamps)
 	}
 	switch {
-	case !okOff:
-		c.Failf(rule, name+"/offset", fn.Decl.Pos(), "offset must be %s %% size; found `%s`", spec.Offset, got)
-	case len(undecOff) > 0 || nOff == 0:
+	case len(badOff) > 0:
+		c.Failf(rule, name+"/offset", fn.Decl.Pos(), "offset must be %s %% size; found `%s`", spec.Offset, strings.Join(badOff, "`, `"))
+	case len(undecOff) > 0:
 		c.Undecidedf(rule, name+"/offset", fn.Decl.Pos(), "cannot resolve the offset result: %s", strings.Join(undecOff, "; "))
 	default:
 		c.Okf(rule, name+"/offset", fn.Decl.Pos(), "offset = %s %% size", spec.Offset)
